@@ -206,6 +206,22 @@ A64Step(P, s) ==
               ELSE AFailS(s, "value", "conditional branch on incomparable operands (" \o s.flags[1].t \o ", " \o s.flags[2].t \o ")"))
         ELSE IF i.a[1].l \notin DOMAIN P.labels THEN AFailS(s, "asm", "undefined label " \o i.a[1].l)
         ELSE IF c = "T" THEN [s EXCEPT !.pc = P.labels[i.a[1].l], !.steps = s.steps + 1] ELSE ANext1(s)
+  ELSE IF op \in {"SUBS", "ADDS"} THEN       \* arithmetic that also sets the flags: SUBS like CMP; ADDS like a comparison of the sum with zero
+     LET x == A64Get(s, i.a[2].r)                  \* (flags left undefined when the signed sum overflows)
+         y == IF i.a[3].k = "imm" THEN IntV(i.a[3].w) ELSE A64Get(s, i.a[3].r)
+         r == IF op = "SUBS" THEN SubV(x, y) ELSE AddV(x, y)
+         fl == IF x.t = "int" /\ y.t = "int" THEN
+                  (IF op = "SUBS" THEN <<x, y>>
+                   ELSE IF IsNeg(x.w) = IsNeg(y.w) /\ IsNeg(r.w) # IsNeg(x.w) THEN NoFlagsV ELSE <<r, ZeroV>>)
+               ELSE NoFlagsV
+     IN IF IsJunk(x) \/ IsJunk(y) THEN AFailS(s, "undef", op \o " on an undefined value")
+        ELSE IF IsBad(r) THEN A64ValFail(s, r) ELSE ANext1([A64Set(s, i.a[1].r, r) EXCEPT !.flags = fl])
+  ELSE IF op \in {"BMI", "BPL"} THEN         \* N flag: sign of the (wrapped) difference of the compared operands
+     LET x == s.flags[1] y == s.flags[2]
+     IN IF IsJunk(x) \/ IsJunk(y) THEN AFailS(s, "undef", "conditional branch depends on undefined flags or an undefined operand")
+        ELSE IF x.t # "int" \/ y.t # "int" THEN AFailS(s, "value", "conditional branch on incomparable operands (" \o x.t \o ", " \o y.t \o ")")
+        ELSE IF i.a[1].l \notin DOMAIN P.labels THEN AFailS(s, "asm", "undefined label " \o i.a[1].l)
+        ELSE IF IsNeg(Sub(x.w, y.w)) = (op = "BMI") THEN [s EXCEPT !.pc = P.labels[i.a[1].l], !.steps = s.steps + 1] ELSE ANext1(s)
   ELSE IF op \in {"CBZ", "CBNZ"} THEN        \* compare with zero and branch, flags untouched
      LET x == A64Get(s, i.a[1].r) c == CmpEq(x, ZeroV)
      IN IF c = "bad" THEN
